@@ -28,6 +28,9 @@ def declare(c):
     c.rule('C08.R6', 'every decision taken on a handler path is invariant under the unit re-encoding: its polynomial is '
                      'homogeneous when file-unit quantities scale by 1/t and unit factors by t (no file-unit length is '
                      'compared with an absolute constant)', floor=100)
+    c.rule('C08.R7', 'after a G0/G1 the tracked native position is logical*unit+offset+homeOffset (absolute) or '
+                     'current+logical*unit (relative) for every axis named, whatever the region tests answered; the same '
+                     'for a list of points handed to isAnyPointExcluded', floor=20)
     c.rule('C08.R5', 'the arc handlers hand processLinearMoves coordinates that are valid in the current positioning mode', floor=2)
 
 
@@ -130,6 +133,35 @@ def native_args_rule(ctx, I):
         st.dom[('more', 'regions', 1)] = frozenset([False])
         px, py = I.symbol('ptx'), I.symbol('pty')
         res = I.run_method(st, 'ExcludeRegionState', 'isAnyPointExcluded', S, [px, py])
+        qx, qy = I.symbol('ptx2'), I.symbol('pty2')
+        st2, H2, S2 = new_handlers_state(I)
+        st2.restrict(('fld', S_OID, '_exclusionEnabled'), frozenset([True]))
+        for ax in ('X_AXIS', 'Y_AXIS'):
+            st2.restrict(('fld', '%s.position.%s' % (S_OID, ax), 'absoluteMode'), frozenset([absolute]))
+        st2.dom[('more', 'regions', 0)] = frozenset([True])
+        st2.dom[('more', 'regions', 1)] = frozenset([False])
+        for pts, rs in (((px, py), res), ((px, py, qx, qy), I.run_method(st2, 'ExcludeRegionState', 'isAnyPointExcluded', S2, [px, py, qx, qy]))):
+            for (s, v) in rs:
+                if isinstance(v, Raised):
+                    continue
+                ctx.instance('C08.R7', ('points', len(pts) // 2, 'abs' if absolute else 'rel', repr(v)))
+                for i, axn in ((0, 'X_AXIS'), (1, 'Y_AXIS')):
+                    o = '%s.position.%s' % (S_OID, axn)
+                    u = Poly.sym(o + '.unitMultiplier')
+                    mine = [q.p for q in pts[i::2]]
+                    if absolute:
+                        want = mine[-1] * u + Poly.sym(o + '.offset') + Poly.sym(o + '.homeOffset')
+                    else:
+                        want = Poly.sym(o + '.current')
+                        for q in mine:
+                            want = want + q * u
+                    for a in live_alts(s, s.heap[(o, 'current')]):
+                        if not (isinstance(a, Num) and a.p == want):
+                            ctx.report('C08.R7', 'ExcludeRegionState.isAnyPointExcluded',
+                                       '%s tracked at the wrong place after %d point(s) (%s positioning)'
+                                       % (axn[0], len(pts) // 2, 'absolute' if absolute else 'relative'),
+                                       'after testing the points the tracked %s is %r; a printer given the same points is at %r'
+                                       % (axn[0], getattr(a, 'p', a), want))
         for (s, v) in res:
             for e in s.trace:
                 if e[0] == 'ext' and e[1].endswith('containsPoint'):
@@ -158,6 +190,11 @@ def sibling_paths(col, gcode, paths, I):
         if f.raised:
             continue
         col.instance('C08.R3', (gcode, f.describe()))
+        if gcode in ('G0', 'G1'):
+            from .pathfacts import exact_tracking
+            col.instance('C08.R7', (gcode, f.describe(), tuple(f.decisions()[-5:])))
+            for (fn, construct, msg) in exact_tracking(f, gcode):
+                col.report('C08.R7', fn, construct, msg, detail={'entry': p.entry})
         writes = {}
         for e in p.st.trace:
             if e[0] == 'write' and e[1] == AX:
